@@ -56,8 +56,8 @@ HOLDS = [0, 0.1, 0.25, 0.4, 0.6]
 
 def plan(tier, seed):
     n = 16 if tier == "quick" else 64
-    per = 500 if tier == "quick" else 5000
-    wf = 30 if tier == "quick" else 300
+    per = 500 if tier == "quick" else 3000
+    wf = 30 if tier == "quick" else 200
     return [{"seed": seed * 1000 + i, "n": per, "wf": wf} for i in range(n)]
 
 
